@@ -25,6 +25,7 @@ Generated once by harness/mkprops.py from harness/props_table.py + PGProperties/
 import PGProofs.DriverPath
 import PGProofs.MutConfig
 import PGProofs.MutConfigNonneg
+import PGProofs.MutConfigBridge
 
 set_option linter.all false
 set_option pp.fieldNotation.generalized false
@@ -113,6 +114,18 @@ theorem executable_prob_le_one : ∀ {S : RMat} {R : List (Array ℚ)} {alpha : 
 /-- M x >= 0 implies x >= 0 for a Z-matrix with strictly positive row sums -/
 theorem minimum_principle : ∀ {K : Type u_1} [inst : Field K] [inst_1 : LinearOrder K] [IsStrictOrderedRing K] {ι : Type u_2} [inst_3 : Fintype ι] [DecidableEq ι] {M : Matrix ι ι K}, (∀ (i j : ι), i ≠ j → M i j ≤ 0) → (∀ (i : ι), 0 < ∑ j, M i j) → ∀ {x : ι → K}, (∀ (i : ι), 0 ≤ Matrix.mulVec M x i) → ∀ (i : ι), 0 ≤ x i := @PG.zmatrix_minimum_principle
 
+/-- UNCONDITIONAL on the code model: for every valid model and epoch, every n >= 2 and number of demes, the inputs the mutcfg path builds from the BFS graph satisfy all sign hypotheses, so whatever mutConfigProb returns lies in [0, 1] (no hypothesis on S, R, alpha left) -/
+theorem code_prob_in_unit_interval : ∀ {D n : ℕ} (m : Model), Model.Valid m → ∀ (ep : EpochP), EpochP.Valid ep → 0 < D → 2 ≤ n → ∀ (fuel : ℕ) (g : Graph), bfs (transit m ep) (initialState 1 D n n) fuel = some g → ∀ (nVec : List ℕ) (nLoci nUnl : ℕ) (θ : ℚ), 0 < θ → ∀ (config : List ℕ) (p : ℚ), mutConfigProb (mutcfgInputs g n nVec nLoci nUnl).1 (mutcfgInputs g n nVec nLoci nUnl).2.1 (mutcfgInputs g n nVec nLoci nUnl).2.2 θ config = some p → 0 ≤ p ∧ (List.length config = n - 1 → p ≤ 1) := @PG.C16_code_prob_in_unit_interval
+
+/-- the values returned for all configurations with at most M mutations sum to a number in [0, 1] -/
+theorem code_total_mass : ∀ {D n : ℕ} (m : Model), Model.Valid m → ∀ (ep : EpochP), EpochP.Valid ep → 0 < D → 2 ≤ n → ∀ (fuel : ℕ) (g : Graph), bfs (transit m ep) (initialState 1 D n n) fuel = some g → ∀ (nVec : List ℕ) (nLoci nUnl : ℕ) (θ : ℚ), 0 < θ → ∀ (P : List RMat) (pTot : Array ℚ), getP (mutcfgS g) (mutcfgR g n) θ = some (P, pTot) → ∀ (M : ℕ), 0 ≤ ∑ k ∈ Finset.range (M + 1), List.sum (List.map (fun c ↦ Option.getD (mutConfigProb (mutcfgS g) (mutcfgR g n) (mutcfgAlpha g nVec nLoci nUnl) θ c) 0) (partitionsOf k (n - 1))) ∧ ∑ k ∈ Finset.range (M + 1), List.sum (List.map (fun c ↦ Option.getD (mutConfigProb (mutcfgS g) (mutcfgR g n) (mutcfgAlpha g nVec nLoci nUnl) θ c) 0) (partitionsOf k (n - 1))) ≤ 1 := @PG.C16_code_total_mass_in_unit_interval
+
+/-- the transient block of the code generator has non-positive row sums (and non-negative off-diagonals: generator_offdiag_nonneg) -/
+theorem generator_signs : ∀ (m : Model), Model.Valid m → ∀ (ep : EpochP), EpochP.Valid ep → ∀ (init : State) (fuel : ℕ) (g : Graph), bfs (transit m ep) init fuel = some g → ∀ (T : Finset (Fin (List.length g.visited))), ∀ i ∈ T, ∑ j ∈ T, rateEntry g.visited g.transitions ↑i ↑j ≤ 0 := @PG.transient_block_row_sum_nonpos
+
+/-- every non-absorbing block-counting state carries total branch-length reward >= 2 -/
+theorem transient_reward_pos : ∀ {D n : ℕ} (m : Model) (ep : EpochP), 0 < D → 2 ≤ n → ∀ (fuel : ℕ) (g : Graph), bfs (transit m ep) (initialState 1 D n n) fuel = some g → ∀ s ∈ g.visited, State.isAbsorbing s = false → 0 < Reward.eval n s Reward.totalBranchLength := @PG.transient_total_reward_pos
+
 end PG.C16
 
 #print axioms PG.C16.executable_getP
@@ -142,3 +155,7 @@ end PG.C16
 #print axioms PG.C16.executable_prob_nonneg
 #print axioms PG.C16.executable_prob_le_one
 #print axioms PG.C16.minimum_principle
+#print axioms PG.C16.code_prob_in_unit_interval
+#print axioms PG.C16.code_total_mass
+#print axioms PG.C16.generator_signs
+#print axioms PG.C16.transient_reward_pos
